@@ -86,7 +86,7 @@ class C06(Check):
                    'configuration->string mapping; it is checked in generated mode as a rider']
     PROBES = ('c06.generated-mode', 'c06.shipped-mode', 'c06.must-reject', 'c06.must-accept', 'c06.constant',
               'c06.undescribed-probed', 'c06.describe-repeated', 'c06.emitted-values-checked', 'c06.unexported-module',
-              'c06.export-configured',
+              'c06.export-configured', 'c06.limits-set-at-start',
               'c06.driver-glitch', 'c06.features-compared')
 
     def gen_case(self, rng, tier):
@@ -107,6 +107,18 @@ class C06(Check):
                     p['veto'] = None
             if len(specs) > 1 and rng.random() < 0.3:
                 specs[-1]['export'] = False
+            # limits learnt from the hardware when the module is started: the description must follow
+            for s in specs:
+                # (a parameter without hardware read: its values only come from accepted changes; the value it holds
+                # at the start stays inside the new limits - readings outside the range are emitted as they are, by design)
+                cands = [p for p in s['params'] if p['di']['type'] == 'double' and p.get('constant') is None
+                         and not p.get('read') and p.get('default') is not None and p['name'] not in PREDEF
+                         and 'min' in p['di'] and 'max' in p['di'] and p['di']['max'] - p['di']['min'] > 1e-3
+                         and p['di']['max'] < 1e300 and p['di']['min'] > -1e300]
+                if cands and rng.random() < 0.4:
+                    p = rng.choice(cands)
+                    lo, hi, v = p['di']['min'], p['di']['max'], p['default']
+                    s['late_limits'] = {'p': p['name'], 'min': lo + (v - lo) * 0.5, 'max': hi - (hi - v) * 0.5}
             # the export property of single parameters given in the configuration (e.g. a section copied from
             # another module): it renames, hides or shows the parameter - but never inside a module not exported
             for s in specs:
@@ -174,6 +186,8 @@ class C06(Check):
         # what exists inside the node but is not described
         if any(p.get('cfg_export') is not None for s in shape.get('specs', ()) for p in s['params']):
             sim.count('c06.export-configured')
+        if any(s.get('late_limits') for s in shape.get('specs', ())):
+            sim.count('c06.limits-set-at-start')
         hidden = ctx['hidden'] = []
         for mname, mobj in secnode.modules.items():
             if mname not in desc['modules']:
